@@ -88,6 +88,12 @@ class Case:
         slots = ["p"] * n_par + ["f"] * n_fix
         rng.shuffle(slots)
         self.n_in = rng.randint(1, 4) if mode == "linear" else n_par
+        # a linear mapping that is a mere permutation of the parameters (every gate angle is one distinct parameter with
+        # coefficient 1, used in another order than declared): `is_trivial_mapping` is true for it
+        self.perm = None
+        if mode == "linear" and rng.random() < 0.15:
+            self.n_in = n_par
+            self.perm = rng.sample(range(n_par), n_par)
         self.entries = []
         rows, consts = [], []
         gi = 0
@@ -105,7 +111,9 @@ class Case:
                 ids = [rng.randint(1, 3) for _ in qs]
             else:
                 qs, ids = [rng.randrange(n)], []
-            if mode == "linear":
+            if mode == "linear" and self.perm is not None:
+                fn = {self.perm[gi]: (None if rng.random() < 0.5 else 1.0)}
+            elif mode == "linear":
                 r = rng.random()
                 if r < 0.2:
                     fn = {rng.randrange(self.n_in): None}
@@ -307,6 +315,8 @@ class Case:
             f.append("unused-param")
         if self.combo:
             f.append("self-combination")
+        if self.perm is not None:
+            f.append("permutation-mapping")
         return f or ["plain"]
 
 
